@@ -62,7 +62,12 @@ def argv_of(row):
 # blocks whose specification has an empty stack bound (bs = 0) after simplification: run under every option row
 BS0 = ["DUP1 AND", "PUSH 0 ADD", "PUSH 1 MUL", "PUSH 0 MLOAD PUSH 0 MSTORE", "PUSH 1 SWAP1 DIV",
        # several zero pushes: PUSH0 against DUP under the size criterion (every row, so every -size row prices them)
-       "PUSH 0 PUSH 0 PUSH 0", "PUSH 0 PUSH 0 PUSH 1", "PUSH 2 PUSH 0 PUSH 0"]
+       "PUSH 0 PUSH 0 PUSH 0", "PUSH 0 PUSH 0 PUSH 1", "PUSH 2 PUSH 0 PUSH 0",
+       # a store directly followed by a POP of a dead value (pruning constraints about what may precede a POP)
+       "MSTORE8 POP", "MSTORE POP", "SSTORE POP", "POP MSTORE8",
+       # a load through a pushed address, a store that conflicts with it, a store through the loaded value: the order
+       # tuples of the l_vars memory encoding interact (seven instructions: run whatever the length limit of the tier)
+       "PUSH 40 MLOAD SWAP1 PUSH 40 MSTORE DUP1 MSTORE", "PUSH 0 SLOAD SWAP1 PUSH 0 SSTORE DUP1 SSTORE"]
 
 
 def small_blocks(tier, seed):
@@ -91,8 +96,8 @@ def collect(tier, maxb0=None, maxmodels=None):
     for i, row in enumerate(rows):
         bl = blocks if (tier != "quick" and i == 0) else corpus.sample(blocks, 45 if tier == "quick" else 150, seed + i)
         bl = bl + [t for t in BS0 if t not in bl]
-        jobs.append((argv_of(row), [{"cmd": "sfs_smt", "text": t, "maxb0": maxb0, "max": maxmodels, "budget": 12 if tier == "quick" else 40}
-                                    for t in bl]))
+        jobs.append((argv_of(row), [{"cmd": "sfs_smt", "text": t, "maxb0": max(maxb0, 7) if t in BS0 else maxb0, "max": maxmodels,
+                                     "budget": 12 if tier == "quick" else 40} for t in bl]))
     results = pool.run_matrix(jobs, timeout=120 if tier == "quick" else 400)
     recs = []
     cnt = {"blocks": 0, "killed": 0, "frontend_exc": 0, "encode_exc": 0, "specs": 0, "encoded": 0, "models": 0, "complete": 0, "sat": 0, "unsat": 0}
